@@ -13,7 +13,11 @@ RULE = ("structures: periodic cells (orthorhombic, triclinic with + and − tilt
         "the set the replacement works on) copies of a search pattern in random / axis-aligned poses, origins random, face-hugging or "
         "at cell corners, plus decoys; search patterns: all of findlib.PATTERNS (asymmetric, symmetric, planar, collinear, "
         "1–2 atoms, with their long axis along x, y or z; ~12 % of the structures hold UNPERTURBED copies turned by exactly "
-        "180°; ~30 % of the calls pass axis hints axisp1/axisp2) given in a shifted frame (first atom not at the origin); replacement patterns derived from them "
+        "180°; ~12 % hold copies TILTED out of the pattern's own orientation by 1e-3 rad … 1.3·atol rad, mostly of 6–8 Å "
+        "long patterns (angle × lever arm > tolerance although angle[rad] < atol[Å]); ~8 % hold ONE "
+        "unperturbed copy whose long axis is (anti)parallel to the pattern's axis up to eps = 1e-9 … 1e-3 rad (turned by eps, "
+        "π−eps, π, π+eps about axes perpendicular to it); ~3 % use a straight 10 Å 3-atom pattern next to a BENT group (middle "
+        "atom 6–11·atol off the axis, distances within 0.7·atol) that is not an occurrence; ~30 % of the calls pass axis hints axisp1/axisp2) given in a shifted frame (first atom not at the origin); replacement patterns derived from them "
         "(all search atoms kept + atoms sticking 3–9 Å out, some kept + new, all new incl. one exactly on the first "
         "search atom, one element substituted, one atom re-placed 0.02–0.09 Å away with the same element, atoms on the pattern axis), every replacement atom tagged by a unique "
         "charge; replace_all on/off; each case is run a second time with search and replacement pattern moved jointly "
@@ -312,6 +316,9 @@ def check_case(ctx, case, with_joint=True):
     ctx.count("atol:%g" % case["atol"])
     ctx.count("hints:%s" % ("none" if not any(v is not None for v in (case.get("hints") or [])) else "given"))
     ctx.count("exact180:%s" % info.get("exact180", False))
+    ctx.count("tilted:%s" % bool(info.get("tilt_over_atol")))
+    ctx.count("flip:%s" % (str(info.get("flip")).split("(")[0]))
+    ctx.count("bent-decoy:%s" % (info.get("bent_decoy_h_over_atol") is not None))
     ctx.count("distorted:%s" % info.get("distorted", "none"))
     ctx.count("matches:%d" % min(stats["matches"], 4))
     ctx.count("replace_all:%s" % case["replace_all"])
